@@ -68,6 +68,14 @@ class Ctx:
         r = self.solver.check(); self.solver.pop()
         if r == z3.unknown: raise Unsupported('solver unknown')
         return r == z3.sat
+    def feasible_m(self, c):
+        self.nsolver += 1
+        self.solver.push(); self.solver.add(c)
+        r = self.solver.check()
+        if r == z3.sat: self.last_model = self.solver.model()
+        self.solver.pop()
+        if r == z3.unknown: raise Unsupported('solver unknown')
+        return r == z3.sat
     def branch(self, c):
         if isinstance(c, bool): return c
         c = z3.simplify(c)
@@ -77,14 +85,35 @@ class Ctx:
         if i < len(self.prefix):
             d = self.prefix[i]
         else:
-            t, f = self.feasible(c), self.feasible(z3.Not(c))
+            # model cache: the last model already witnesses one side
+            side = None
+            m = getattr(self, 'last_model', None)
+            if m is not None:
+                try:
+                    v = m.eval(c, model_completion=True)
+                    side = True if z3.is_true(v) else (False if z3.is_false(v) else None)
+                except z3.Z3Exception:
+                    side = None
+            if side is None:
+                t = self.feasible_m(c); f = self.feasible_m(z3.Not(c))
+            elif side:
+                t = True; f = self.feasible_m(z3.Not(c))
+            else:
+                f = True; t = self.feasible_m(c)
             if t and f:
                 d = True; self.alts.append(self.taken + [False])
             elif t: d = True
             elif f: d = False
             else: raise Infeasible()
         self.taken.append(d)
-        self.solver.add(c if d else z3.Not(c))
+        cc = c if d else z3.Not(c)
+        self.solver.add(cc)
+        m = getattr(self, 'last_model', None)
+        if m is not None:
+            try:
+                if not z3.is_true(m.eval(cc, model_completion=True)): self.last_model = None
+            except z3.Z3Exception:
+                self.last_model = None
         return d
     def concretize(self, v):
         """fork until BV v is a concrete python int (choices are recorded so replays are deterministic)"""
